@@ -41,6 +41,8 @@ class MetaSignals(type):
             signals.extend(getattr(superclass, "signals", []))
         signals = list(dict.fromkeys(signals).keys())
         d["signals"] = signals
+        # subclasses read the attribute: it has to name the inherited signals of every base, not only of the first one in the MRO
+        cls.signals = signals
         register_signal(cls, signals)
         super().__init__(name, bases, d)
 
